@@ -15,7 +15,9 @@ Node(k, p, sp, lo, v) == [k |-> k, p |-> p, sp |-> sp, lo |-> lo, v |-> v]
 (* The consumer as a pure step function on [doc, open, phase]; the actions  *)
 (* below and the trace specification (Trace_Store) both use it.             *)
 (***************************************************************************)
-St0 == [doc |-> <<RootNode>>, open |-> <<1>>, phase |-> "child"]
+\* (the root may receive namespace nodes, too, before anything else: "it will either be added to the root node, or the last
+\*  node.Element that was not terminated" - a fragment parser seeding in-scope bindings; the top-level elements inherit them)
+St0 == [doc |-> <<RootNode>>, open |-> <<1>>, phase |-> "ns"]
 TopOf(st) == st.open[Len(st.open)]
 
 \* the tree after an element start: the element, then one namespace node per binding in
@@ -38,7 +40,7 @@ AfterNs(dd, e, pre, uri) ==
 
 \* the Parser contract (parser/parser.go): which event may come next
 Accepts(st, ev) ==
-  CASE ev.k = "ns" -> Len(st.open) > 1 /\ st.phase = "ns"            \* namespaces before attributes, only on elements
+  CASE ev.k = "ns" -> st.phase = "ns"                                  \* namespaces before attributes (on elements; on the root before anything else)
     [] ev.k = "attr" -> Len(st.open) > 1 /\ st.phase \in {"ns", "attr"} \* attributes before children
     [] OTHER -> TRUE                                                     \* children, End (surplus End at the root is tolerated)
 
